@@ -442,8 +442,9 @@ package asm
 //@   ensures mapdom(gen.new.metadataDefs, metadataID(old)) ==> result1 == nil && result0 == gen.new.metadataDefs[metadataID(old)]
 //@   ensures !mapdom(gen.new.metadataDefs, metadataID(old)) ==> result1 != nil && result0 == nil
 //@ func (*generator).irNamedType
-//@   props C04 C05
-//@   requires gen != nil && old != nil && len(getTypeName(localIdent(old.Name()))) >= 1
+//@   props C04 C05 C06 C16
+//@   requires gen != nil
+//@   assumed requires old != nil && len(getTypeName(localIdent(old.Name()))) >= 1
 //@   assigns nothing
 //@   ensures mapdom(gen.new.typeDefs, getTypeName(localIdent(old.Name()))) ==> result1 == nil && result0 == gen.new.typeDefs[getTypeName(localIdent(old.Name()))]
 //@   ensures !mapdom(gen.new.typeDefs, getTypeName(localIdent(old.Name()))) ==> result1 != nil && result0 == nil
@@ -496,12 +497,15 @@ package asm
 //@   requires ir.aggok(t, indices)
 //@   assigns nothing
 //@   ensures result == ir.aggty(t, indices)
-//@ # irFastMathFlags / irAddrSpace read enum keywords and numbers off the syntax tree (out of the verified subset: the
-//@ # generated keyword tables are C18's); assumed to touch nothing but the slice they return.
+//@ # irFastMathFlags translates the written flags one by one, in order, into a new slice (the keyword parser is a pure
+//@ # function of the keyword: asm/enum, C18) and touches nothing else.
 //@ func irFastMathFlags
-//@   trusted
+//@   props C04 C05
 //@   assigns nothing
 //@   ensures len(result) == len(olds) && (len(olds) == 0 || fresh(result))
+//@   ensures forall(k, 0, len(olds), result[k] == enum.FastMathFlagFromString(olds[k].Text()))
+//@   loop 0: invariant 0 <= range_i && range_i <= len(olds) && len(flags) == len(olds) && fresh(flags)
+//@   loop 0: invariant forall(k, 0, range_i, flags[k] == enum.FastMathFlagFromString(olds[k].Text()))
 //@ func irAddrSpace
 //@   props C06
 //@   pure
@@ -1314,14 +1318,37 @@ package asm
 //@ # tyOf(a): the IR type the syntax-tree type a denotes (up to type identity teq; irType builds a new object
 //@ # for every use of an unnamed type)
 //@ spec tyOf(a ast.LlvmNode) types.Type
+//@ # tkind(t, a): the IR type t is of the kind the written type a asks for (a named type is whatever it was defined as)
+//@ macro tkind(t types.Type, a ast.LlvmNode) bool = (typeis(a, "*ast.VoidType") ==> typeis(t, "*types.VoidType")) && (typeis(a, "*ast.FuncType") ==> typeis(t, "*types.FuncType")) && (typeis(a, "*ast.IntType") ==> typeis(t, "*types.IntType")) && (typeis(a, "*ast.FloatType") ==> typeis(t, "*types.FloatType")) && (typeis(a, "*ast.MMXType") ==> typeis(t, "*types.MMXType")) && (typeis(a, "*ast.PointerType") ==> typeis(t, "*types.PointerType")) && ((typeis(a, "*ast.VectorType") || typeis(a, "*ast.ScalableVectorType")) ==> typeis(t, "*types.VectorType")) && (typeis(a, "*ast.LabelType") ==> typeis(t, "*types.LabelType")) && (typeis(a, "*ast.TokenType") ==> typeis(t, "*types.TokenType")) && (typeis(a, "*ast.MetadataType") ==> typeis(t, "*types.MetadataType")) && (typeis(a, "*ast.ArrayType") ==> typeis(t, "*types.ArrayType")) && ((typeis(a, "*ast.OpaqueType") || typeis(a, "*ast.StructType") || typeis(a, "*ast.PackedStructType")) ==> typeis(t, "*types.StructType"))
+//@ # irType builds a new type for every use of a written type (verified: of the kind the node asks for, see the
+//@ # one-level contracts of the translators below). Its last clause DEFINES tyOf: tyOf(a) is the type irType
+//@ # returns for a, up to type identity -- assumed, not verified: that irType is a function of the node up to teq.
 //@ func (*generator).irType
-//@   trusted
+//@   props C06 C16
+//@   partial
+//@   requires gen != nil
 //@   assigns nothing
-//@   ensures result1 == nil ==> result0 != nil && teq(result0, tyOf(old)) && unfold(result0)
+//@   ensures result1 == nil ==> tkind(result0, old) && (!typeis(old, "*ast.NamedType") ==> result0 != nil)
+//@   ensures result1 == nil && typeis(old, "*ast.NamedType") ==> result0 == gen.new.typeDefs[getTypeName(localIdent(cast(old, "*ast.NamedType").Name()))]
+//@   assumed ensures result1 == nil ==> result0 != nil && teq(result0, tyOf(old)) && unfold(result0)
+//@ func (*generator).irTypeDef
+//@   props C06 C16
+//@   partial
+//@   requires gen != nil
+//@   behaviour create:
+//@     requires t == nil
+//@     assigns nothing
+//@     ensures result1 == nil ==> tkind(result0, old) && (!typeis(old, "*ast.NamedType") ==> result0 != nil)
+//@     ensures result1 == nil && typeis(old, "*ast.NamedType") ==> result0 == gen.new.typeDefs[getTypeName(localIdent(cast(old, "*ast.NamedType").Name()))]
 //@ func (*generator).irSigFromHeader
-//@   trusted
+//@   props C04 C06
+//@   requires gen != nil
 //@   assigns nothing
-//@   ensures result1 == nil ==> result0 != nil && fresh(result0)
+//@   ensures result1 == nil ==> result0 != nil && fresh(result0) && result0.RetType != nil && teq(result0.RetType, tyOf(old.RetType())) && len(result0.Params) == len(old.Params().Params()) && result0.Variadic == res1(old.Params().Variadic())
+//@   ensures result1 == nil ==> forall(k, 0, len(result0.Params), result0.Params[k] != nil && teq(result0.Params[k], tyOf(old.Params().Params()[k].Typ())))
+//@   ensures result1 != nil ==> result0 == nil
+//@   loop 0: invariant 0 <= range_i && range_i <= len(oldParams) && sig != nil && fresh(sig) && len(sig.Params) == len(oldParams) && fresh(sig.Params) && sig.RetType != nil && teq(sig.RetType, tyOf(old.RetType()))
+//@   loop 0: invariant forall(k, 0, range_i, sig.Params[k] != nil && teq(sig.Params[k], tyOf(oldParams[k].Typ())))
 //@ func (*generator).gepExprType
 //@   trusted
 //@   assigns caches
@@ -1766,3 +1793,261 @@ package asm
 //@   loop 0: invariant len(gen.m.IFuncs) == ordI(gen, range_i) && forall(i, 0, range_i, typeis(gent(gen, i), "*ir.IFunc") ==> gen.m.IFuncs[ordI(gen, i)] == cast(gent(gen, i), "*ir.IFunc"))
 //@   loop 0: invariant len(gen.m.Funcs) == ordF(gen, range_i) && forall(i, 0, range_i, typeis(gent(gen, i), "*ir.Func") ==> gen.m.Funcs[ordF(gen, i)] == cast(gent(gen, i), "*ir.Func"))
 //@ # ==== generated by /verif/tools/gen_order_contracts.py: end ====
+
+//@ # ---------------------------------------------------------------- C06 / C16 / C04 (type translators, one level) ---
+//@ # Every translator of a written type builds (t == nil) a new IR type of the kind the syntax tree says, or fills in
+//@ # (t != nil: the scaffold of a type definition) the object it is given; the immediate attributes (bit size, kind,
+//@ # length, scalability, address space, packedness, variadicity, number of fields / parameters) are read off the node,
+//@ # every component type is the translation of the corresponding component of the node (tyOf, up to type identity).
+//@ # The functions panic on a scaffold of the wrong kind (partial: statements about the executions that return).
+//@ func (*generator).irVoidType
+//@   props C06 C16
+//@   partial
+//@   requires gen != nil
+//@   assigns nothing
+//@   ensures result1 == nil && typeis(result0, "*types.VoidType") && cast(result0, "*types.VoidType") != nil
+//@   ensures t == nil ==> fresh(cast(result0, "*types.VoidType")) && len(cast(result0, "*types.VoidType").TypeName) == 0
+//@   ensures t != nil ==> result0 == t
+//@ func (*generator).irMMXType
+//@   props C06 C16
+//@   partial
+//@   requires gen != nil
+//@   assigns nothing
+//@   ensures result1 == nil && typeis(result0, "*types.MMXType") && cast(result0, "*types.MMXType") != nil
+//@   ensures t == nil ==> fresh(cast(result0, "*types.MMXType")) && len(cast(result0, "*types.MMXType").TypeName) == 0
+//@   ensures t != nil ==> result0 == t
+//@ func (*generator).irLabelType
+//@   props C06 C16
+//@   partial
+//@   requires gen != nil
+//@   assigns nothing
+//@   ensures result1 == nil && typeis(result0, "*types.LabelType") && cast(result0, "*types.LabelType") != nil
+//@   ensures t == nil ==> fresh(cast(result0, "*types.LabelType")) && len(cast(result0, "*types.LabelType").TypeName) == 0
+//@   ensures t != nil ==> result0 == t
+//@ func (*generator).irTokenType
+//@   props C06 C16
+//@   partial
+//@   requires gen != nil
+//@   assigns nothing
+//@   ensures result1 == nil && typeis(result0, "*types.TokenType") && cast(result0, "*types.TokenType") != nil
+//@   ensures t == nil ==> fresh(cast(result0, "*types.TokenType")) && len(cast(result0, "*types.TokenType").TypeName) == 0
+//@   ensures t != nil ==> result0 == t
+//@ func (*generator).irMetadataType
+//@   props C06 C16
+//@   partial
+//@   requires gen != nil
+//@   assigns nothing
+//@   ensures result1 == nil && typeis(result0, "*types.MetadataType") && cast(result0, "*types.MetadataType") != nil
+//@   ensures t == nil ==> fresh(cast(result0, "*types.MetadataType")) && len(cast(result0, "*types.MetadataType").TypeName) == 0
+//@   ensures t != nil ==> result0 == t
+//@ func (*generator).irIntType
+//@   props C06 C16
+//@   partial
+//@   requires gen != nil
+//@   behaviour create:
+//@     requires t == nil
+//@     assigns nothing
+//@     ensures result1 == nil ==> typeis(result0, "*types.IntType") && cast(result0, "*types.IntType") != nil && fresh(cast(result0, "*types.IntType")) && len(cast(result0, "*types.IntType").TypeName) == 0
+//@     ensures result1 == nil ==> cast(result0, "*types.IntType").BitSize == irBitSize(old)
+//@     ensures result1 != nil ==> result0 == nil
+//@   behaviour fill:
+//@     requires typeis(t, "*types.IntType") && cast(t, "*types.IntType") != nil
+//@     assigns cast(t, "*types.IntType").BitSize
+//@     ensures result1 == nil ==> result0 == t
+//@     ensures result1 == nil ==> cast(t, "*types.IntType").BitSize == irBitSize(old)
+//@     ensures result1 != nil ==> result0 == nil
+//@ func (*generator).irFloatType
+//@   props C06 C16
+//@   partial
+//@   requires gen != nil
+//@   behaviour create:
+//@     requires t == nil
+//@     assigns nothing
+//@     ensures result1 == nil ==> typeis(result0, "*types.FloatType") && cast(result0, "*types.FloatType") != nil && fresh(cast(result0, "*types.FloatType")) && len(cast(result0, "*types.FloatType").TypeName) == 0
+//@     ensures result1 == nil ==> cast(result0, "*types.FloatType").Kind == enum.FloatKindFromString(old.FloatKind().Text())
+//@     ensures result1 != nil ==> result0 == nil
+//@   behaviour fill:
+//@     requires typeis(t, "*types.FloatType") && cast(t, "*types.FloatType") != nil
+//@     assigns cast(t, "*types.FloatType").Kind
+//@     ensures result1 == nil ==> result0 == t
+//@     ensures result1 == nil ==> cast(t, "*types.FloatType").Kind == enum.FloatKindFromString(old.FloatKind().Text())
+//@     ensures result1 != nil ==> result0 == nil
+//@ func (*generator).irPointerType
+//@   props C06 C16
+//@   partial
+//@   requires gen != nil
+//@   behaviour create:
+//@     requires t == nil
+//@     assigns nothing
+//@     ensures result1 == nil ==> typeis(result0, "*types.PointerType") && cast(result0, "*types.PointerType") != nil && fresh(cast(result0, "*types.PointerType")) && len(cast(result0, "*types.PointerType").TypeName) == 0
+//@     ensures result1 == nil ==> cast(result0, "*types.PointerType").ElemType != nil && teq(cast(result0, "*types.PointerType").ElemType, tyOf(old.Elem()))
+//@     ensures result1 == nil ==> cast(result0, "*types.PointerType").AddrSpace == ite(res1(old.AddrSpace()), irAddrSpace(res0(old.AddrSpace())), 0)
+//@     ensures result1 != nil ==> result0 == nil
+//@   behaviour fill:
+//@     requires typeis(t, "*types.PointerType") && cast(t, "*types.PointerType") != nil
+//@     assigns cast(t, "*types.PointerType").ElemType, cast(t, "*types.PointerType").AddrSpace
+//@     ensures result1 == nil ==> result0 == t
+//@     ensures result1 == nil ==> cast(t, "*types.PointerType").ElemType != nil && teq(cast(t, "*types.PointerType").ElemType, tyOf(old.Elem()))
+//@     ensures result1 == nil ==> cast(t, "*types.PointerType").AddrSpace == ite(res1(old.AddrSpace()), irAddrSpace(res0(old.AddrSpace())), old(cast(t, "*types.PointerType").AddrSpace))
+//@     ensures result1 != nil ==> result0 == nil
+//@ func (*generator).irVectorType
+//@   props C06 C16
+//@   partial
+//@   requires gen != nil
+//@   behaviour create:
+//@     requires t == nil
+//@     assigns nothing
+//@     ensures result1 == nil ==> typeis(result0, "*types.VectorType") && cast(result0, "*types.VectorType") != nil && fresh(cast(result0, "*types.VectorType")) && len(cast(result0, "*types.VectorType").TypeName) == 0
+//@     ensures result1 == nil ==> !cast(result0, "*types.VectorType").Scalable && cast(result0, "*types.VectorType").Len == uintLit(old.Len()) && cast(result0, "*types.VectorType").ElemType != nil && teq(cast(result0, "*types.VectorType").ElemType, tyOf(old.Elem()))
+//@     ensures result1 != nil ==> result0 == nil
+//@   behaviour fill:
+//@     requires typeis(t, "*types.VectorType") && cast(t, "*types.VectorType") != nil
+//@     assigns cast(t, "*types.VectorType").Len, cast(t, "*types.VectorType").ElemType
+//@     ensures result1 == nil ==> result0 == t
+//@     ensures result1 == nil ==> cast(t, "*types.VectorType").Scalable == old(cast(t, "*types.VectorType").Scalable) && cast(t, "*types.VectorType").Len == uintLit(old.Len()) && cast(t, "*types.VectorType").ElemType != nil && teq(cast(t, "*types.VectorType").ElemType, tyOf(old.Elem()))
+//@     ensures result1 != nil ==> result0 == nil
+//@ func (*generator).irScalableVectorType
+//@   props C06 C16
+//@   partial
+//@   requires gen != nil
+//@   behaviour create:
+//@     requires t == nil
+//@     assigns nothing
+//@     ensures result1 == nil ==> typeis(result0, "*types.VectorType") && cast(result0, "*types.VectorType") != nil && fresh(cast(result0, "*types.VectorType")) && len(cast(result0, "*types.VectorType").TypeName) == 0
+//@     ensures result1 == nil ==> cast(result0, "*types.VectorType").Scalable && cast(result0, "*types.VectorType").Len == uintLit(old.Len()) && cast(result0, "*types.VectorType").ElemType != nil && teq(cast(result0, "*types.VectorType").ElemType, tyOf(old.Elem()))
+//@     ensures result1 != nil ==> result0 == nil
+//@   behaviour fill:
+//@     requires typeis(t, "*types.VectorType") && cast(t, "*types.VectorType") != nil
+//@     assigns cast(t, "*types.VectorType").Scalable, cast(t, "*types.VectorType").Len, cast(t, "*types.VectorType").ElemType
+//@     ensures result1 == nil ==> result0 == t
+//@     ensures result1 == nil ==> cast(t, "*types.VectorType").Scalable && cast(t, "*types.VectorType").Len == uintLit(old.Len()) && cast(t, "*types.VectorType").ElemType != nil && teq(cast(t, "*types.VectorType").ElemType, tyOf(old.Elem()))
+//@     ensures result1 != nil ==> result0 == nil
+//@ func (*generator).irArrayType
+//@   props C06 C16
+//@   partial
+//@   requires gen != nil
+//@   behaviour create:
+//@     requires t == nil
+//@     assigns nothing
+//@     ensures result1 == nil ==> typeis(result0, "*types.ArrayType") && cast(result0, "*types.ArrayType") != nil && fresh(cast(result0, "*types.ArrayType")) && len(cast(result0, "*types.ArrayType").TypeName) == 0
+//@     ensures result1 == nil ==> cast(result0, "*types.ArrayType").Len == uintLit(old.Len()) && cast(result0, "*types.ArrayType").ElemType != nil && teq(cast(result0, "*types.ArrayType").ElemType, tyOf(old.Elem()))
+//@     ensures result1 != nil ==> result0 == nil
+//@   behaviour fill:
+//@     requires typeis(t, "*types.ArrayType") && cast(t, "*types.ArrayType") != nil
+//@     assigns cast(t, "*types.ArrayType").Len, cast(t, "*types.ArrayType").ElemType
+//@     ensures result1 == nil ==> result0 == t
+//@     ensures result1 == nil ==> cast(t, "*types.ArrayType").Len == uintLit(old.Len()) && cast(t, "*types.ArrayType").ElemType != nil && teq(cast(t, "*types.ArrayType").ElemType, tyOf(old.Elem()))
+//@     ensures result1 != nil ==> result0 == nil
+//@ func (*generator).irStructType
+//@   props C06 C16
+//@   partial
+//@   requires gen != nil
+//@   behaviour create:
+//@     requires t == nil
+//@     assigns nothing
+//@     ensures result1 == nil ==> typeis(result0, "*types.StructType") && cast(result0, "*types.StructType") != nil && fresh(cast(result0, "*types.StructType")) && len(cast(result0, "*types.StructType").TypeName) == 0
+//@     ensures result1 == nil ==> !cast(result0, "*types.StructType").Packed && !cast(result0, "*types.StructType").Opaque && len(cast(result0, "*types.StructType").Fields) == len(old.Fields())
+//@     ensures result1 == nil ==> forall(k, 0, len(cast(result0, "*types.StructType").Fields), cast(result0, "*types.StructType").Fields[k] != nil && teq(cast(result0, "*types.StructType").Fields[k], tyOf(old.Fields()[k])))
+//@     ensures result1 != nil ==> result0 == nil
+//@     loop 0: invariant 0 <= range_i && range_i <= len(oldFields) && typ != nil && len(typ.Fields) == len(oldFields) && fresh(typ.Fields)
+//@     loop 0: invariant len(oldFields) == len(old.Fields()) && forall(k, 0, len(oldFields), oldFields[k] == old.Fields()[k])
+//@     loop 0: invariant forall(k, 0, range_i, typ.Fields[k] != nil && teq(typ.Fields[k], tyOf(oldFields[k])))
+//@   behaviour fill:
+//@     requires typeis(t, "*types.StructType") && cast(t, "*types.StructType") != nil
+//@     assigns cast(t, "*types.StructType").Fields, cast(t, "*types.StructType").Opaque
+//@     ensures result1 == nil ==> result0 == t
+//@     ensures result1 == nil ==> cast(t, "*types.StructType").Packed == old(cast(t, "*types.StructType").Packed) && !cast(t, "*types.StructType").Opaque
+//@     ensures result1 == nil ==> len(old.Fields()) > 0 ==> len(cast(t, "*types.StructType").Fields) == len(old.Fields()) && forall(k, 0, len(cast(t, "*types.StructType").Fields), cast(t, "*types.StructType").Fields[k] != nil && teq(cast(t, "*types.StructType").Fields[k], tyOf(old.Fields()[k])))
+//@     ensures result1 == nil ==> len(old.Fields()) == 0 ==> cast(t, "*types.StructType").Fields == old(cast(t, "*types.StructType").Fields)
+//@     ensures result1 != nil ==> result0 == nil
+//@     loop 0: invariant 0 <= range_i && range_i <= len(oldFields) && typ != nil && len(typ.Fields) == len(oldFields) && fresh(typ.Fields)
+//@     loop 0: invariant len(oldFields) == len(old.Fields()) && forall(k, 0, len(oldFields), oldFields[k] == old.Fields()[k])
+//@     loop 0: invariant forall(k, 0, range_i, typ.Fields[k] != nil && teq(typ.Fields[k], tyOf(oldFields[k])))
+//@ func (*generator).irPackedStructType
+//@   props C06 C16
+//@   partial
+//@   requires gen != nil
+//@   behaviour create:
+//@     requires t == nil
+//@     assigns nothing
+//@     ensures result1 == nil ==> typeis(result0, "*types.StructType") && cast(result0, "*types.StructType") != nil && fresh(cast(result0, "*types.StructType")) && len(cast(result0, "*types.StructType").TypeName) == 0
+//@     ensures result1 == nil ==> cast(result0, "*types.StructType").Packed && !cast(result0, "*types.StructType").Opaque && len(cast(result0, "*types.StructType").Fields) == len(old.Fields())
+//@     ensures result1 == nil ==> forall(k, 0, len(cast(result0, "*types.StructType").Fields), cast(result0, "*types.StructType").Fields[k] != nil && teq(cast(result0, "*types.StructType").Fields[k], tyOf(old.Fields()[k])))
+//@     ensures result1 != nil ==> result0 == nil
+//@     loop 0: invariant 0 <= range_i && range_i <= len(oldFields) && typ != nil && len(typ.Fields) == len(oldFields) && fresh(typ.Fields)
+//@     loop 0: invariant len(oldFields) == len(old.Fields()) && forall(k, 0, len(oldFields), oldFields[k] == old.Fields()[k])
+//@     loop 0: invariant forall(k, 0, range_i, typ.Fields[k] != nil && teq(typ.Fields[k], tyOf(oldFields[k])))
+//@   behaviour fill:
+//@     requires typeis(t, "*types.StructType") && cast(t, "*types.StructType") != nil
+//@     assigns cast(t, "*types.StructType").Packed, cast(t, "*types.StructType").Fields, cast(t, "*types.StructType").Opaque
+//@     ensures result1 == nil ==> result0 == t
+//@     ensures result1 == nil ==> cast(t, "*types.StructType").Packed && !cast(t, "*types.StructType").Opaque
+//@     ensures result1 == nil ==> len(old.Fields()) > 0 ==> len(cast(t, "*types.StructType").Fields) == len(old.Fields()) && forall(k, 0, len(cast(t, "*types.StructType").Fields), cast(t, "*types.StructType").Fields[k] != nil && teq(cast(t, "*types.StructType").Fields[k], tyOf(old.Fields()[k])))
+//@     ensures result1 == nil ==> len(old.Fields()) == 0 ==> cast(t, "*types.StructType").Fields == old(cast(t, "*types.StructType").Fields)
+//@     ensures result1 != nil ==> result0 == nil
+//@     loop 0: invariant 0 <= range_i && range_i <= len(oldFields) && typ != nil && len(typ.Fields) == len(oldFields) && fresh(typ.Fields)
+//@     loop 0: invariant len(oldFields) == len(old.Fields()) && forall(k, 0, len(oldFields), oldFields[k] == old.Fields()[k])
+//@     loop 0: invariant forall(k, 0, range_i, typ.Fields[k] != nil && teq(typ.Fields[k], tyOf(oldFields[k])))
+//@ func (*generator).irFuncType
+//@   props C06 C16
+//@   partial
+//@   requires gen != nil
+//@   behaviour create:
+//@     requires t == nil
+//@     assigns nothing
+//@     ensures result1 == nil ==> typeis(result0, "*types.FuncType") && cast(result0, "*types.FuncType") != nil && fresh(cast(result0, "*types.FuncType")) && len(cast(result0, "*types.FuncType").TypeName) == 0
+//@     ensures result1 == nil ==> cast(result0, "*types.FuncType").RetType != nil && teq(cast(result0, "*types.FuncType").RetType, tyOf(old.RetType())) && cast(result0, "*types.FuncType").Variadic == res1(old.Params().Variadic()) && len(cast(result0, "*types.FuncType").Params) == len(old.Params().Params())
+//@     ensures result1 == nil ==> forall(k, 0, len(cast(result0, "*types.FuncType").Params), cast(result0, "*types.FuncType").Params[k] != nil && teq(cast(result0, "*types.FuncType").Params[k], tyOf(old.Params().Params()[k].Typ())))
+//@     ensures result1 != nil ==> result0 == nil
+//@     loop 0: invariant 0 <= range_i && range_i <= len(oldParams) && typ != nil && len(typ.Params) == len(oldParams) && fresh(typ.Params) && typ.RetType != nil && teq(typ.RetType, tyOf(old.RetType()))
+//@     loop 0: invariant forall(k, 0, range_i, typ.Params[k] != nil && teq(typ.Params[k], tyOf(oldParams[k].Typ())))
+//@   behaviour fill:
+//@     requires typeis(t, "*types.FuncType") && cast(t, "*types.FuncType") != nil
+//@     assigns cast(t, "*types.FuncType").RetType, cast(t, "*types.FuncType").Params, cast(t, "*types.FuncType").Variadic
+//@     ensures result1 == nil ==> result0 == t
+//@     ensures result1 == nil ==> cast(t, "*types.FuncType").RetType != nil && teq(cast(t, "*types.FuncType").RetType, tyOf(old.RetType())) && cast(t, "*types.FuncType").Variadic == res1(old.Params().Variadic())
+//@     ensures result1 == nil ==> len(old.Params().Params()) > 0 ==> len(cast(t, "*types.FuncType").Params) == len(old.Params().Params()) && forall(k, 0, len(cast(t, "*types.FuncType").Params), cast(t, "*types.FuncType").Params[k] != nil && teq(cast(t, "*types.FuncType").Params[k], tyOf(old.Params().Params()[k].Typ())))
+//@     ensures result1 == nil ==> len(old.Params().Params()) == 0 ==> cast(t, "*types.FuncType").Params == old(cast(t, "*types.FuncType").Params)
+//@     ensures result1 != nil ==> result0 == nil
+//@     loop 0: invariant 0 <= range_i && range_i <= len(oldParams) && typ != nil && len(typ.Params) == len(oldParams) && fresh(typ.Params) && typ.RetType != nil && teq(typ.RetType, tyOf(old.RetType()))
+//@     loop 0: invariant forall(k, 0, range_i, typ.Params[k] != nil && teq(typ.Params[k], tyOf(oldParams[k].Typ())))
+//@ # an opaque type only occurs as the body of a type definition: the scaffold becomes opaque, nothing else changes
+//@ func (*generator).irOpaqueType
+//@   props C06 C16
+//@   partial
+//@   requires gen != nil
+//@   assigns cast(t, "*types.StructType").Opaque
+//@   ensures result1 == nil && result0 == t && typeis(t, "*types.StructType") && cast(t, "*types.StructType") != nil && cast(t, "*types.StructType").Opaque
+//@ func irBitSize
+//@   props C06 C16
+//@   pure
+//@ # ---------------------------------------------------------------- C04 / C05 / C16 (scaffolds of type definitions) ---
+//@ # tnamed(t, n): the IR type t carries the type name n
+//@ macro tnamed(t types.Type, n string) bool = (typeis(t, "*types.VoidType") ==> cast(t, "*types.VoidType").TypeName == n) && (typeis(t, "*types.FuncType") ==> cast(t, "*types.FuncType").TypeName == n) && (typeis(t, "*types.IntType") ==> cast(t, "*types.IntType").TypeName == n) && (typeis(t, "*types.FloatType") ==> cast(t, "*types.FloatType").TypeName == n) && (typeis(t, "*types.MMXType") ==> cast(t, "*types.MMXType").TypeName == n) && (typeis(t, "*types.PointerType") ==> cast(t, "*types.PointerType").TypeName == n) && (typeis(t, "*types.VectorType") ==> cast(t, "*types.VectorType").TypeName == n) && (typeis(t, "*types.LabelType") ==> cast(t, "*types.LabelType").TypeName == n) && (typeis(t, "*types.TokenType") ==> cast(t, "*types.TokenType").TypeName == n) && (typeis(t, "*types.MetadataType") ==> cast(t, "*types.MetadataType").TypeName == n) && (typeis(t, "*types.ArrayType") ==> cast(t, "*types.ArrayType").TypeName == n) && (typeis(t, "*types.StructType") ==> cast(t, "*types.StructType").TypeName == n)
+//@ # tgrammar(a): a is one of the type nodes of the grammar (ll.bnf: Type)
+//@ macro tgrammar(a ast.LlvmNode) bool = typeis(a, "*ast.VoidType") || typeis(a, "*ast.FuncType") || typeis(a, "*ast.IntType") || typeis(a, "*ast.FloatType") || typeis(a, "*ast.MMXType") || typeis(a, "*ast.PointerType") || typeis(a, "*ast.VectorType") || typeis(a, "*ast.ScalableVectorType") || typeis(a, "*ast.LabelType") || typeis(a, "*ast.TokenType") || typeis(a, "*ast.MetadataType") || typeis(a, "*ast.ArrayType") || typeis(a, "*ast.OpaqueType") || typeis(a, "*ast.StructType") || typeis(a, "*ast.PackedStructType") || typeis(a, "*ast.NamedType")
+//@ # newType: the scaffold of a type definition is a new object of the kind the body asks for, carrying the name
+//@ # of the definition; every type node of the grammar gets one (no panic)
+//@ func newType
+//@   props C04 C05 C16
+//@   requires index != nil && track != nil
+//@   assumed requires tgrammar(old) && len(typeName) >= 1 && (typeis(old, "*ast.NamedType") ==> cast(old, "*ast.NamedType") != nil && len(getTypeName(localIdent(cast(old, "*ast.NamedType").Name()))) >= 1)
+//@   assumed requires forall(k string, mapdom(index, k) ==> index[k] != nil && tgrammar(index[k].Typ()), pattern(mapdom(index, k)))
+//@   requires forall(k string, mapdom(track, k) ==> len(k) >= 1, pattern(mapdom(track, k)))
+//@   assigns mapof(track)
+//@   ensures result1 == nil ==> result0 != nil
+//@   ensures !typeis(old, "*ast.NamedType") ==> result1 == nil && fresh(ptrof(result0)) && tkind(result0, old) && tnamed(result0, typeName)
+//@   ensures result1 != nil ==> result0 == nil
+//@   ensures forall(k string, mapdom(track, k) ==> len(k) >= 1, pattern(mapdom(track, k)))
+//@   loop 0: invariant fresh(names) && forall(k string, mapdom(track, k) ==> len(k) >= 1, pattern(mapdom(track, k)))
+//@ # createTypeDefs: on success every type definition of the index has a scaffold under its own name: a new object of
+//@ # the kind its body asks for that carries the name (a definition whose body is another named type gets the
+//@ # scaffold newType builds for the target -- known finding of C04)
+//@ macro tscaf(t types.Type, a ast.LlvmNode, n string) bool = t != nil && (!typeis(a, "*ast.NamedType") ==> tkind(t, a) && tnamed(t, n))
+//@ func (*generator).createTypeDefs
+//@   props C04 C05 C16
+//@   requires gen != nil && gen.old.typeDefs != nil
+//@   assumed requires forall(k string, mapdom(gen.old.typeDefs, k) ==> len(k) >= 1 && gen.old.typeDefs[k] != nil && tgrammar(gen.old.typeDefs[k].Typ()), pattern(mapdom(gen.old.typeDefs, k)))
+//@   assigns gen.new.typeDefs, mapof(gen.new.typeDefs)
+//@   ensures result == nil ==> gen.new.typeDefs != nil && forall(k string, mapdom(gen.old.typeDefs, k) ==> mapdom(gen.new.typeDefs, k) && tscaf(gen.new.typeDefs[k], gen.old.typeDefs[k].Typ(), k), pattern(mapdom(gen.old.typeDefs, k)))
+//@   loop 0: invariant gen.new.typeDefs != nil && fresh(gen.new.typeDefs) && forall(k string, visited(k) ==> mapdom(gen.new.typeDefs, k) && tscaf(gen.new.typeDefs[k], gen.old.typeDefs[k].Typ(), k), pattern(mapdom(gen.old.typeDefs, k)))
